@@ -299,7 +299,11 @@ type Extent struct {
 // the address ranges of every pointer target, slice backing array (to capacity) and non-empty
 // string/binary of the transmitted fields. Fields absent from the message (and therefore possibly
 // set by the type's own default initialiser, e.g. to static string literals) are not visited.
-func Extents(c *Corpus, s *StructDef, w *W, rv reflect.Value, path string, out *[]Extent) {
+//
+// fresh says that the destination was zero before the decode: every non-nil pointer and non-empty slice in it was
+// then created by this decode, whatever the message says, and parts of the object that the message does not
+// describe (a map entry under a key the message does not have, a list of another length) are walked by shape alone.
+func Extents(c *Corpus, s *StructDef, w *W, rv reflect.Value, path string, fresh bool, out *[]Extent) {
 	last := map[uint16]*W{}
 	for _, wf := range w.F {
 		f := s.FieldByID(wf.ID)
@@ -321,7 +325,7 @@ func Extents(c *Corpus, s *StructDef, w *W, rv reflect.Value, path string, out *
 			*out = append(*out, Extent{fv.Pointer(), fv.Type().Elem().Size(), uintptr(fv.Type().Elem().Align()), false, p + "(ptr)"})
 			fv = fv.Elem()
 		}
-		extValue(c, f.T, wv, fv, f.NoCopy, p, out)
+		extValue(c, f.T, wv, fv, f.NoCopy, p, fresh, out)
 	}
 	if s.Unknown {
 		fv := rv.FieldByName("_unknownFields")
@@ -331,7 +335,7 @@ func Extents(c *Corpus, s *StructDef, w *W, rv reflect.Value, path string, out *
 	}
 }
 
-func extValue(c *Corpus, t *T, w *W, v reflect.Value, nocopy bool, path string, out *[]Extent) {
+func extValue(c *Corpus, t *T, w *W, v reflect.Value, nocopy bool, path string, fresh bool, out *[]Extent) {
 	switch t.K {
 	case String:
 		if v.Len() > 0 {
@@ -351,21 +355,26 @@ func extValue(c *Corpus, t *T, w *W, v reflect.Value, nocopy bool, path string, 
 			*out = append(*out, Extent{v.Pointer(), v.Type().Elem().Size(), uintptr(v.Type().Elem().Align()), false, path + "(ptr)"})
 			v = v.Elem()
 		}
-		Extents(c, sd, w, v, path, out)
+		Extents(c, sd, w, v, path, fresh, out)
 	case List, Set:
 		if v.IsNil() || v.Len() == 0 {
 			return
 		}
 		et := v.Type().Elem()
 		*out = append(*out, Extent{v.Pointer(), uintptr(v.Cap()) * et.Size(), uintptr(et.Align()), false, path + "[]"})
-		if v.Len() != len(w.L) {
-			return
-		}
 		if t.Elem.Scalar() {
 			return
 		}
+		if v.Len() != len(w.L) {
+			if fresh {
+				for i := 0; i < v.Len(); i++ {
+					createdValue(c, t.Elem, v.Index(i), false, path+"["+strconv.Itoa(i)+"]?", out)
+				}
+			}
+			return
+		}
 		for i := 0; i < v.Len(); i++ {
-			extValue(c, t.Elem, w.L[i], v.Index(i), false, path+"["+strconv.Itoa(i)+"]", out)
+			extValue(c, t.Elem, w.L[i], v.Index(i), false, path+"["+strconv.Itoa(i)+"]", fresh, out)
 		}
 	case Map:
 		if v.IsNil() || v.Len() == 0 {
@@ -384,6 +393,15 @@ func extValue(c *Corpus, t *T, w *W, v reflect.Value, nocopy bool, path string, 
 			kb := keyBytes(t.Key, k)
 			wv := idx[string(kb)]
 			if wv == nil {
+				if fresh {
+					if t.Key.K == String && k.Len() > 0 {
+						ks := k.String()
+						*out = append(*out, Extent{uintptr(unsafe.Pointer(unsafe.StringData(ks))), uintptr(len(ks)), 1, false, path + "[" + hexBytes(kb) + "]?(key)"})
+					}
+					if !t.Elem.Scalar() {
+						createdValue(c, t.Elem, e, false, path+"["+hexBytes(kb)+"]?", out)
+					}
+				}
 				continue
 			}
 			kp := path + "[" + hexBytes(kb) + "]"
@@ -392,7 +410,76 @@ func extValue(c *Corpus, t *T, w *W, v reflect.Value, nocopy bool, path string, 
 				*out = append(*out, Extent{uintptr(unsafe.Pointer(unsafe.StringData(s))), uintptr(len(s)), 1, false, kp + "(key)"})
 			}
 			if !t.Elem.Scalar() {
-				extValue(c, t.Elem, wv, e, false, kp, out)
+				extValue(c, t.Elem, wv, e, false, kp, fresh, out)
+			}
+		}
+	}
+}
+
+// createdValue walks a value of a zero-initialised destination without the message: every pointer target, non-empty
+// slice and non-empty string in it was created by the decode, except a string or binary field with a declared
+// default, which may hold that default (shared by every decode) and is left out.
+func createdValue(c *Corpus, t *T, v reflect.Value, nocopy bool, path string, out *[]Extent) {
+	switch t.K {
+	case String:
+		if v.Len() > 0 {
+			s := v.String()
+			*out = append(*out, Extent{uintptr(unsafe.Pointer(unsafe.StringData(s))), uintptr(len(s)), 1, nocopy, path})
+		}
+	case Binary:
+		if v.Len() > 0 {
+			*out = append(*out, Extent{v.Pointer(), uintptr(v.Cap()), 1, nocopy, path})
+		}
+	case Struct:
+		if t.Ptr {
+			if v.IsNil() {
+				return
+			}
+			*out = append(*out, Extent{v.Pointer(), v.Type().Elem().Size(), uintptr(v.Type().Elem().Align()), false, path + "(ptr)"})
+			v = v.Elem()
+		}
+		sd := c.Get(t.S)
+		for _, f := range sd.Fields {
+			fv := v.FieldByName(f.Name)
+			p := path + "." + f.Name
+			if f.OptPtr {
+				if fv.IsNil() {
+					continue
+				}
+				*out = append(*out, Extent{fv.Pointer(), fv.Type().Elem().Size(), uintptr(fv.Type().Elem().Align()), false, p + "(ptr)"})
+				fv = fv.Elem()
+			}
+			if f.Def != nil && (f.T.K == String || f.T.K == Binary) {
+				continue
+			}
+			createdValue(c, f.T, fv, f.NoCopy, p, out)
+		}
+	case List, Set:
+		if v.IsNil() || v.Len() == 0 {
+			return
+		}
+		et := v.Type().Elem()
+		*out = append(*out, Extent{v.Pointer(), uintptr(v.Cap()) * et.Size(), uintptr(et.Align()), false, path + "[]"})
+		if t.Elem.Scalar() {
+			return
+		}
+		for i := 0; i < v.Len(); i++ {
+			createdValue(c, t.Elem, v.Index(i), false, path+"["+strconv.Itoa(i)+"]", out)
+		}
+	case Map:
+		if v.IsNil() || v.Len() == 0 || t.Key.K == Struct {
+			return
+		}
+		it := v.MapRange()
+		for it.Next() {
+			k, e := it.Key(), it.Value()
+			kp := path + "[" + hexBytes(keyBytes(t.Key, k)) + "]?"
+			if t.Key.K == String && k.Len() > 0 {
+				s := k.String()
+				*out = append(*out, Extent{uintptr(unsafe.Pointer(unsafe.StringData(s))), uintptr(len(s)), 1, false, kp + "(key)"})
+			}
+			if !t.Elem.Scalar() {
+				createdValue(c, t.Elem, e, false, kp, out)
 			}
 		}
 	}
